@@ -92,7 +92,7 @@ fn header_table(rep: &mut Report) {
 // record round trip
 // ------------------------------------------------------------------------------------------------
 
-fn check_record(c: &RecCase, ctx: &mut Ctx) {
+pub fn check_record(c: &RecCase, ctx: &mut Ctx) {
     let v = match c.build() {
         Ok(v) => v,
         Err(e) => {
@@ -190,7 +190,7 @@ fn check_record(c: &RecCase, ctx: &mut Ctx) {
 // message round trip
 // ------------------------------------------------------------------------------------------------
 
-fn check_message(m: &MsgSpec, ctx: &mut Ctx) {
+pub fn check_message(m: &MsgSpec, ctx: &mut Ctx) {
     match m {
         MsgSpec::Req(r) => {
             ctx.label(format!("request/{}", r.variant()));
@@ -1215,5 +1215,7 @@ pub fn run(cfg: RunCfg) {
             fuzz_campaign(&mut rep);
         }
     }
+    vh_core::fuzz_section!(rep, "record_roundtrip", rec_case_strategy, check_record, "sec_protocol", "protocol", 200_000, 150, 6);
+    vh_core::fuzz_section!(rep, "message_roundtrip", msg_strategy, check_message, "sec_protocol", "protocol", 300_000, 150, 6);
     rep.finish();
 }
